@@ -13,7 +13,7 @@ import vplib as V
 
 PROP_FILES = [os.path.join(V.PROPS, "C02.v")]
 TV_RTOL = 1e-9
-NOBL = 4
+NOBL = 5   # homogeneous, events, comparisons, scoped, first derivatives (entropy degree 1; pressure, chemical potentials degree 0)
 
 
 def by_prog(tags, key):
@@ -139,7 +139,10 @@ def run(ctx):
                     oracle_checks += simpl["configs"][0]["oracle"]["checks"]
                 except V.InfraError as e:
                     ctx.notes.append("search failed to run: %s" % e)
-            what = "degree obligation failed for %s (output degrees %s, homogeneity lost at instruction %s)" % (name, degs, fns)
+            d1ok = by_prog(tags, "D1OK")
+            d1none = by_prog(tags, "D1NONE")
+            what = "degree obligation failed for %s (output degrees %s, homogeneity lost at instruction %s; first derivatives (T,V,N_i) " \
+                   "homogeneous of degree (1,0,0..): %s, lost at %s)" % (name, degs, fns, d1ok, d1none)
             rp = {"broken": "gen/C02/%s.v: P*_homogeneous_check / P*_events_check / P*_cmp_check / P*_scoped" % name, "config": name,
                   "coq_error": V.coq_error(r["out"]), "degrees": str(degs), "first_none": str(fns)}
             if fails:
